@@ -134,8 +134,9 @@ Definition edges_ok (c : case) : bool :=
              negb (p =? q) && negb (q =? r) && negb (r =? p)) (c_faces c) &&
   forallb (fun cl : cell => let l := cell_list cl in
              forallb (fun x => forallb (fun y => (x =? y) || edge_in E x y) l) l) (c_cells c) &&
-  (* the decidable hypotheses of C08_sym_rowsum_tetra and C08_mass_edges hold on this mesh *)
-  cell_adjacency_ok (c_cells c) && edge_cover_ok (c_faces c) E.
+  (* the list-level hypotheses of C08_sym_rowsum_tetra and C08_mass_edges (and the fibre conditions they imply) hold on this mesh *)
+  cell_adjacency_ok (c_cells c) && edge_cover_ok (c_faces c) E && surface_manifold_ok (c_faces c) E &&
+  cells_conforming (c_cells c).
 
 (* binary64 run: relative/absolute tolerance 1e-9 on finite values *)
 (* a = model, b = implementation. An infinite implementation value must be matched exactly (|a - inf| <= tol (1 + inf) would
